@@ -391,6 +391,35 @@ func c11FragSpecs(thorough bool) []*gen.FSpec {
 			})
 		})
 	}
+	// two truns per traf (the decode time of the second run continues after the first): fragments of 2..maxN samples split
+	// at every position, explicit per-sample fields and tfhd/trex defaults
+	for n := 2; n <= maxN; n++ {
+		for cut := 1; cut < n; cut++ {
+			for dflt := 0; dflt < 3; dflt++ {
+				for _, twoFrags := range []bool{false, true} {
+					var ss []gen.FSample
+					for i := 0; i < n; i++ {
+						fl := gen.FlagsNonSync
+						if i == 0 || i == cut {
+							fl = gen.FlagsSync
+						}
+						d := uint32(1 + (i+cut)%2)
+						if dflt != 0 {
+							d = 2
+						}
+						ss = append(ss, gen.FSample{Dur: d, Size: uint32(1 + i%3), Flags: fl, Cto: int32(i % 2)})
+					}
+					sp := &gen.FSpec{Tracks: []gen.FTrack{{ID: 1, Timescale: 1000, Media: "video", BaseTime: 5}}, Defaults: dflt}
+					frags := []gen.FFragment{{Runs: []gen.FRun{{TrackID: 1, Samples: ss[:cut]}, {TrackID: 1, Samples: ss[cut:]}}}}
+					if twoFrags {
+						frags = append(frags, gen.FFragment{Runs: []gen.FRun{{TrackID: 1, Samples: []gen.FSample{{Dur: 2, Size: 2, Flags: gen.FlagsSync}}}}})
+					}
+					sp.Segments = []gen.FSegment{{Styp: true, Fragments: frags}}
+					specs = append(specs, sp)
+				}
+			}
+		}
+	}
 	// zero-duration samples (legal, e.g. the last sample of a track): every duration tuple over {0,1,2} with at least
 	// one zero, one fragment and a 2+rest split, sync at sample 1 only and at every sample
 	maxZ := 4
